@@ -44,7 +44,7 @@ U2 = [(V, 'u2_buffer', {}), (V, 'u2_stream', {})]
 PROPS = {
     'C01': dict(
         components=[(V, 'u1_search', {}), (V, 'u1_iter', {}),
-                    sem('lf,ll', 'find,iter,spans'), sem('lf,ll', 'find,iter', families='deep,bytes')],
+                    sem('lf,ll', 'find,iter,spans'), sem('lf,ll', 'find,iter', families='deep,bytes,many')],
         level_text='Proof (Verus, unbounded in haystack/span): the real try_find_fwd/try_find_fwd_imp/get_match return the abstract run answer find_spec ("keep the last match, stop at dead state or span end") of any automaton satisfying the Automaton contract AC, and FindIter::next/handle_overlapping_empty_match/search implement the iterator step relation of the statement (restart at previous end, empty-match rule). Bounded stand-in: leftmost-first/longest definition vs the real builders on all small pattern lists.',
         level_note=COMMON_NOTE,
     ),
